@@ -6,11 +6,13 @@ import (
 
 	corev1 "k8s.io/api/core/v1"
 	metav1 "k8s.io/apimachinery/pkg/apis/meta/v1"
+	"sigs.k8s.io/controller-runtime/pkg/client"
 
 	v1 "github.com/DataDog/extendeddaemonset/api/v1alpha1"
 
 	"vh/core"
 	"vh/kit"
+	"vh/simapi"
 )
 
 // C08Script: bounded-progress clauses of C08 that the per-invocation monitors cannot see
@@ -20,7 +22,7 @@ type C08Script struct{}
 
 func (e *C08Script) Name() string { return "sim.c08-script" }
 func (e *C08Script) Rule() string {
-	return "scripted hold scenarios x seeded (3-6 nodes, assignment mode, maxUnavailable, reconcile order): {rolling update paused, rollout frozen, paused+frozen, canary paused before its first pod, canary paused after its pods} each followed by a node joining and cooperative rounds, then the release (unpause / unfreeze / canary unpause / validate) and convergence; judged: what must not happen while held, what must still happen while held (pods on new nodes when only paused), status.state, resumption within the round bound; non-trivial = distinct (scenario, nodes, mode, maxUnavailable) tuples"
+	return "scripted hold scenarios x seeded (3-6 nodes, assignment mode, maxUnavailable, reconcile order): {rolling update paused, rollout frozen, paused+frozen, canary paused before its first pod, canary paused after its pods, canary auto-paused by pod restarts and resumed by the user} each followed by a node joining and cooperative rounds, then the release (unpause / unfreeze / canary unpause / validate) and convergence; judged: what must not happen while held, what must still happen while held (pods on new nodes when only paused), status.state, resumption within the round bound; non-trivial = distinct (scenario, nodes, mode, maxUnavailable) tuples"
 }
 func (e *C08Script) Cases(tier string, _ int64) int {
 	if tier == "thorough" {
@@ -34,7 +36,7 @@ func (e *C08Script) Floors(string) map[string]int {
 
 func (e *C08Script) Run(ctx *core.Ctx, idx int) {
 	r := ctx.Rand
-	scen := []string{"paused", "frozen", "paused+frozen", "canary-paused-before-pods", "canary-paused-after-pods"}[idx%5]
+	scen := []string{"paused", "frozen", "paused+frozen", "canary-paused-before-pods", "canary-paused-after-pods", "canary-auto-paused"}[idx%6]
 	n := 3 + r.Intn(4)
 	aff := r.Intn(2) == 0
 	mu := 1 + r.Intn(2)
@@ -48,7 +50,7 @@ func (e *C08Script) Run(ctx *core.Ctx, idx int) {
 	ed.Spec.Strategy.RollingUpdate.MaxUnavailable = kit.IS(mu)
 	ed.Spec.Strategy.RollingUpdate.SlowStartAdditiveIncrease = kit.IS(2)
 	ed.Spec.Strategy.RollingUpdate.SlowStartIntervalDuration = &metav1.Duration{Duration: time.Second}
-	canary := scen == "canary-paused-before-pods" || scen == "canary-paused-after-pods"
+	canary := scen == "canary-paused-before-pods" || scen == "canary-paused-after-pods" || scen == "canary-auto-paused"
 	if canary {
 		ed.Spec.Strategy.Canary = &v1.ExtendedDaemonSetSpecStrategyCanary{Replicas: kit.IS(1 + r.Intn(2)), ValidationMode: v1.ExtendedDaemonSetSpecStrategyCanaryValidationModeManual}
 	}
@@ -250,6 +252,66 @@ func (e *C08Script) Run(ctx *core.Ctx, idx int) {
 		}
 		if !ok {
 			fail("C08.canary-resumes-on-validation", w.finalOK("ns1", "foo", "B"))
+		}
+	case "canary-auto-paused":
+		// the canary pauses itself because a canary pod restarted more often than autoPause.maxRestarts allows
+		// (and less often than autoFail.maxRestarts); the user then resumes it while that pod still exists
+		w.SetTemplate("ns1", "foo", kit.Tpl("B"))
+		w.Reconcile("eds", "ns1", "foo")
+		w.Reconcile("eds", "ns1", "foo")
+		w.Reconcile("eds", "ns1", "foo")
+		rounds(6)
+		e0 := kit.GetEDS(w.S, "ns1", "foo")
+		if e0.Status.Canary == nil || len(e0.Status.Canary.Nodes) == 0 {
+			ctx.Count("C08.script-setup-failed")
+			return
+		}
+		wantCanary := len(e0.Status.Canary.Nodes)
+		restarted := false
+		for _, p := range w.DaemonPods("ns1", "foo") {
+			if kit.MarkerOfPod(p) == "B" && len(p.Status.ContainerStatuses) > 0 {
+				w.S.Mutate(simapi.KindPod, p.Namespace, p.Name, func(o client.Object) {
+					pp := o.(*corev1.Pod)
+					pp.Status.ContainerStatuses[0].RestartCount = 3
+					pp.Status.ContainerStatuses[0].LastTerminationState = corev1.ContainerState{Terminated: &corev1.ContainerStateTerminated{Reason: "Error", ExitCode: 1, FinishedAt: metav1.NewTime(w.Now())}}
+				})
+				restarted = true
+				break
+			}
+		}
+		if !restarted {
+			ctx.Count("C08.script-setup-failed")
+			return
+		}
+		rounds(4)
+		ctx.Count("C08.script-holds-judged")
+		if state() != v1.ExtendedDaemonSetStatusStateCanaryPaused {
+			// whether three restarts pause the canary is C06's business; without a pause there is nothing to release
+			ctx.Count("C08.script-auto-pause-did-not-fire")
+			return
+		}
+		if err := w.Kubectl("canary-unpause", "ns1", "foo"); err != nil {
+			fail("C08.script-command", "canary-unpause refused: "+err.Error())
+			return
+		}
+		ok := false
+		for i := 0; i < bound; i++ {
+			w.Round(2 * time.Second)
+			if rdy, _ := countTpl("B"); rdy >= wantCanary && state() == v1.ExtendedDaemonSetStatusStateCanary {
+				ok = true
+				break
+			}
+		}
+		ctx.Count("C08.script-releases-judged")
+		if !ok {
+			rdy, _ := countTpl("B")
+			fail("C08.canary-resumes-on-unpause", fmt.Sprintf("%d Ready canary pods (want %d), state %s, after the user unpaused an auto-paused canary", rdy, wantCanary, state()))
+			return
+		}
+		// and it stays resumed: the same restart count must not pause it again
+		rounds(4)
+		if state() != v1.ExtendedDaemonSetStatusStateCanary {
+			fail("C08.canary-resumes-on-unpause", "state went back to "+string(state())+" although nothing new happened after the unpause")
 		}
 	}
 	_ = corev1.PodRunning
